@@ -7,6 +7,8 @@ COMMON_ASSUME = [
 ]
 
 TIERS = {
+    "C11": {"quick": {"runs": 160, "budget_s": 100, "run_timeout_s": 600},
+            "thorough": {"runs": 3000, "budget_s": 1500, "run_timeout_s": 1500}},
     "C08": {"quick": {"runs": 300, "budget_s": 90, "run_timeout_s": 400},
             "thorough": {"runs": 5000, "budget_s": 1200, "run_timeout_s": 900}},
     "C10": {"quick": {"runs": 200, "budget_s": 100, "run_timeout_s": 500},
@@ -55,6 +57,22 @@ TM_RULE = ("case = (generated program, argument, seeded history of trace transit
            "or a fault fired")
 
 META = {
+    "C11": {"LEVEL": "exploration",
+            "RULE": "case = (expectation program composing 1-3 ADEV primitives with deterministic glue and optionally a cond on a discrete "
+                    "value, two scalar parameters, return kind; every internal draw scripted: discrete sites enumerated, continuous sites as "
+                    "Gauss-Hermite / Gauss-Legendre nodes; complete weighted outcome tree per directional derivative; REAL per-draw identities "
+                    "under seed / jit / modular_vmap); distinct = distinct (kind, primitive sequence, cond, return kind); non-trivial = >= 2 "
+                    "primitives or a cond",
+            "COMPONENTS": {"real": ["genjax.adev (ADEV CPS interpreter, Expectation.estimate / jvp_estimate / grad_estimate, all primitives)",
+                                    "genjax.pjax stage / Seed / ModularVmap", "jax.jvp / jax.grad custom_jvp glue"],
+                           "stub": ["SCRIPTED: Seed key splitting and the inner leaf samplers of the estimators", "sim/jaxcompat.py"],
+                           "regimes": "SCRIPTED + REAL"},
+            "ASSUMPTIONS": COMMON_ASSUME + ["reference E[f] by exact summation and 24-node quadrature of the float64 integrand; derivative by central differences",
+                                            "quadrature with 12 (quick) / 20 (thorough) nodes on smooth integrands; tolerance 2e-3 value, 5e-3 gradient (float32 program)"],
+            "REQUIRED_PROBES": {"quick": ["tree_complete", "kind_enum_only", "kind_mixed", "kind_reparam_only"],
+                                "thorough": ["tree_complete", "kind_enum_only", "kind_mixed", "kind_reparam_only", "enum_exact_checked", "cond"] +
+                                            ["p_" + n for n in ("flip_enum flip_enum_parallel cat_enum_parallel normal_reparam uniform_reparam mvn_reparam "
+                                                                "mvn_diag_reparam flip_mvd flip_reinforce normal_reinforce geometric_reinforce mvn_reinforce").split()]}},
     "C08": {"LEVEL": "exploration",
             "RULE": "case = (i) generated per-lane function (deterministic code, log-density sites, TRACER echo/keyprobe sites, real normals with "
                     "tiny scale, sample_shape sites, unmapped higher-rank parameters, keyword parameters, scan / cond / nested modular_vmap) x axis "
@@ -260,6 +278,8 @@ META = {
 
 DST = "deterministic simulation with fault injection"
 CLAIMS = {
+    "C11": dict(text="every internal draw of the estimators is scripted: weighted outcome trees (enumeration x quadrature nodes) give E[estimate] and E[jvp tangent] exactly up to quadrature error and compare them with E[f], dE[f] of the reference integrand; enumeration-only programs consume no randomness; per-draw grad/jvp consistency under seed/jit/modular_vmap",
+                ref="DESIGN.md 4 C11", note="smooth integrands, <=3 primitives, quadrature tolerance 2e-3/5e-3", technique=DST + " (SCRIPTED randomness seam: outcome tree x quadrature nodes)"),
     "C08": dict(text="TRACER sites under the real ModularVmap show, per lane, which parameter cell each draw was paired with and which key it got; layouts compared with jax.vmap of the deterministic skeleton for generated axis specifications; Vmap/repeat combinators checked lane by lane against the reference for all five GFI methods",
                 ref="DESIGN.md 4 C08", note="bounded sizes (<=4 lanes, depth 2); jax.vmap layout trusted", technique=DST + " (TRACER randomness seam under the real batching rules; SCRIPTED lane-wise reference)"),
     "C10": dict(text="SMC pipelines as histories of moves: per-particle weight identity against the reference along the ancestry after every move; complete outcome trees give E[exp(lml)] and E[exp(lml)*estimate(h)] exactly and compare them with brute-force evidence / posterior integrals after every step; rejuvenation_smc end-to-end by a two-stage test",
